@@ -7,6 +7,9 @@ import Qentem.Proofs.StrToNumMalformed
 import Qentem.Proofs.StrToNumPaths
 import Qentem.Proofs.StrToNumSafe
 import Qentem.Proofs.StrToNumClosed
+import Qentem.Proofs.StrToNumExpPath
+import Qentem.Proofs.StrToNumNegIter
+import Qentem.Proofs.StrToNumPrefix
 /-! C09 — text to number: integers exact, reals within one ulp, out-of-range rejected. -/
 namespace Qentem.Props.C09
 open Qentem.StrToNum Qentem.Round Qentem.Generated.StrToNum
@@ -341,7 +344,9 @@ example : posScale 3 30 = some (3 * 5 ^ 30, 30) := by decide
 /-! ### Stated, not proved (S): within one ulp; overflow reported
 
 `real_within_one_ulp` and `overflow_reported` are the full-strength statements over every
-well-formed numeral of the grammar. They are **open**: closing them needs an error analysis of the
+well-formed numeral of the grammar. The positive-exponent class (integer mantissa of ≤ 19 digits,
+exponent ≥ 0) is **proved** below (`real_within_one_ulp_pos`, which also contains overflow
+reporting for that class); the rest is **open**: closing them needs an error analysis of the
 truncated reciprocal multiplications (`negIter`) and of the 54-bit truncation before the final
 round-half-up; `bigint_steps_exact` and `tables_ok` reduce them to inequalities over `Nat`.
 The check searches them with the exact-`Rat` oracle (`Driver/StrToNum.lean`) on the C++ results.
@@ -375,5 +380,163 @@ theorem overflow_reported_partial (b s : Nat) : posFinish b s < 2 ^ 63 ∧
 example : (strToNum [48,46,49] 0 3).map magBits = some (nearestMag 1 10) := by decide
 example : (strToNum [49,101,50,51] 0 4).map (fun r => ulpDist (magBits r) (nearestMag (10 ^ 23) 1)) = some 1 := by decide
 example : (strToNum [52,101,51,48,56] 0 5).map magBits = some infBits := by decide
+
+
+/-! ### Positive-exponent numerals: within one ulp, overflow reported (proved)
+
+`[+-]? d₁…d_n (e|E) [+] k₁…k_j` with `d₁ ≠ 0`, `n ≤ 19` significant digits (the mantissa then fits
+the 64-bit window exactly) and an exponent of 1..8 digits (larger exponents are saturated by the
+code and can only be out of range). `v` is the mantissa, `k` the exponent, the value is `v·10^k`.
+
+* the whole numeral is consumed (`offset = end`);
+* `k + n > 309`: rejected as NotANumber — and then `v·10^k ≥ 10^309` really exceeds every finite
+  double (out-of-range rejection is never applied to a representable value);
+* otherwise: `Real`, sign bit = sign of the text, and the magnitude pattern `p` satisfies
+  `ulpDist p (nearestMag (v·10^k) 1) ≤ 1` — **within one unit in the last place of the correctly
+  rounded value**, overflow included (`nearestMag` is then infinity and `p` is infinity or the
+  largest finite double);
+* if `v·10^k` is at least the largest finite double, `p` is the largest finite double or infinity:
+  **never an unrelated finite value** (`overflow_reported` for this class).
+
+Correct rounding (0 ulp) is *false* for this code: it truncates to 54 bits and rounds half **up**
+(witness below), so "within one ulp" is the strongest true statement. -/
+theorem real_within_one_ulp_pos (c : List Nat) (o e : Nat) (sign : List Nat) (d1 : Nat) (xs : List Nat) (m : Nat)
+    (plus ks : List Nat) (he : e < 2 ^ 32)
+    (hs : sign = [] ∨ sign = [43] ∨ sign = [45]) (h1 : isNonZeroDigit d1 = true) (hxs : AllDigits xs)
+    (hlen : xs.length ≤ 18) (hm : m = 101 ∨ m = 69) (hplus : plus = [] ∨ plus = [43])
+    (hks : AllDigits ks) (hk0 : ks ≠ []) (hk8 : ks.length ≤ 8)
+    (hu : unitsAt c e o (sign ++ (d1 :: xs ++ [m] ++ plus ++ ks)))
+    (hend : endsAt c e (o + sign.length + 1 + xs.length + 1 + plus.length + ks.length) isDigit) :
+    let v := decVal (d1 :: xs)
+    let k := decVal ks
+    let n := xs.length + 1
+    let fin := o + sign.length + 1 + xs.length + 1 + plus.length + ks.length
+    let signBit := if decide (sign = [45]) then 0x8000000000000000 else 0
+    (k + n > 309 ∧ strToNum c o e = some ⟨.notANumber, v, fin⟩ ∧ (2 ^ 53 - 1) * 2 ^ 971 < v * 10 ^ k) ∨
+    (k + n ≤ 309 ∧ ∃ p, strToNum c o e = some ⟨.real, p ||| signBit, fin⟩ ∧ p < 2 ^ 63 ∧
+        ulpDist p (nearestMag (v * 10 ^ k) 1) ≤ 1 ∧
+        ((2 ^ 53 - 1) * 2 ^ 971 ≤ v * 10 ^ k → p = maxFiniteBits ∨ p = infBits)) := by
+  intro v k n fin signBit
+  have hdig := isNonZeroDigit_isDigit h1
+  have hf : d1 ≠ 45 ∧ d1 ≠ 43 := by simp [isDigit] at hdig; omega
+  have hu' := (unitsAt_append c e sign (d1 :: xs ++ [m] ++ plus ++ ks) o).1 hu
+  have hu1 : unitsAt c e o (sign ++ [d1]) := (unitsAt_append c e sign [d1] o).2 ⟨hu'.1, hu'.2.1, trivial⟩
+  rw [strToNum_after_sign c o e sign d1 hs hu1 hf]
+  rw [afterSign_exp_pos c e _ (o + sign.length) d1 xs m plus ks he h1 hxs hlen hm hplus hks hk0 hk8 hu'.2 hend]
+  have hv0 : 0 < v := Nat.lt_of_lt_of_le (Nat.pow_pos (by decide)) (decVal_ge d1 xs h1)
+  have hvlt : v < 10 ^ 19 := by
+    have := decVal_lt_pow (d1 :: xs) (fun y hy => by
+      rcases List.mem_cons.1 hy with h | h
+      · subst h; exact hdig
+      · exact hxs y h)
+    exact Nat.lt_of_lt_of_le this (Nat.pow_le_pow_right (by decide) (by simp; omega))
+  have hk : k < 10 ^ 8 := Nat.lt_of_lt_of_le (decVal_lt_pow ks hks) (Nat.pow_le_pow_right (by decide) hk8)
+  exact realResult_pos _ v n k fin hv0 (Nat.lt_of_lt_of_le hvlt (by decide)) (by simpa [n] using decVal_ge d1 xs h1)
+    (by omega) hk (by omega)
+
+/-- non-vacuity and tightness: `1e23` is one ulp from the correctly rounded value;
+`9007199254740993e0` (2^53+1, an exact tie) is rounded up instead of to even; `17976931348623158e292`
+stays at the largest finite double; `2e308` is infinity; `1e400` is rejected -/
+example : (strToNum [49,101,50,51] 0 4).map (fun r => (r.kind, ulpDist (r.bits % 2 ^ 63) (nearestMag (10 ^ 23) 1))) = some (.real, 1) := by decide
+example : (strToNum [57,48,48,55,49,57,57,50,53,52,55,52,48,57,57,51,101,48] 0 18).map (fun r => (r.bits, nearestMag 9007199254740993 1)) =
+    some (0x4340000000000001, 0x4340000000000000) := by decide
+example : (strToNum [49,55,57,55,54,57,51,49,51,52,56,54,50,51,49,53,56,101,50,57,50] 0 21).map (·.bits) = some maxFiniteBits := by decide
+example : (strToNum [50,101,51,48,56] 0 5).map (·.bits) = some infBits := by decide
+example : (strToNum [49,101,52,48,48] 0 5).map (·.kind) = some .notANumber := by decide
+
+
+/-! ### Negative-exponent pipeline: proved error bound (towards `real_within_k_ulp_neg`)
+
+`powerOfNegativeTen num x` aims at `β = num·2^(64+S)/5^x` (then `num·10^-x = β·2^-(x+64+S)`).
+With `k ≤ x/27 + 1 ≤ 14` multiply-shift steps the big integer `b` it normalises satisfies
+
+  `β·(1 − k·2^-61) − k  ≤  b  ≤  β·(1 + k·2^-61)`
+
+(stated without division below). Consequence, **on paper only**: with `bit` the top bit of `b`,
+the value handed to the final 53-bit rounding is off by less than `k/2^(bit−52) + 2^-4` units in
+the last place (`k ≤ 14`), the final truncate-and-half-up adds at most ½, and just below a power of
+two the distance counts double. That gives one ulp whenever `b ≥ 2^58` — every mantissa `≥ 256`,
+since each step at most halves `b` — and a bound of a few ulps for one- and two-digit mantissas
+with exponents near −320 (`b ≈ 2^54.7`), where the observed distance is still ≤ 1. Formalising
+this needs the rational-valued analogue of `raw_close` (binade crossing in both directions, the
+subnormal branch of `negFinish`) and is **not** done, so `real_within_one_ulp` stays an open
+`Prop` for negative net exponents and is searched by the oracle. -/
+theorem negScale_error_bound (num x : Nat) (hn : num < 2 ^ 64) (hx : x ≤ 2 ^ 20) :
+    ∃ b S k, negScale num x = some (b, x + 64 + S) ∧ k ≤ x / 27 + 1 ∧
+      b * 5 ^ x * 2 ^ 61 ≤ num * 2 ^ (64 + S) * (2 ^ 61 + k) ∧
+      num * 2 ^ (64 + S) * 2 ^ 61 ≤ (b + k) * 5 ^ x * (2 ^ 61 + k) :=
+  negScale_error num x hn hx
+
+/-- instance: `1e-5` — `b = 12089258196146291748`, `S = 11`, one step; both inequalities hold with room -/
+example : negScale 1 5 = some (12089258196146291748, 5 + 64 + 11) ∧
+    12089258196146291748 * 5 ^ 5 * 2 ^ 61 ≤ 1 * 2 ^ (64 + 11) * (2 ^ 61 + 1) ∧
+    1 * 2 ^ (64 + 11) * 2 ^ 61 ≤ (12089258196146291748 + 1) * 5 ^ 5 * (2 ^ 61 + 1) := by decide
+
+
+/-! ### A digit run that reaches `end_offset` (for the JSON prefix-rejection proofs)
+
+`[-] digits` occupying exactly `[o, e)`: the converter either rejects (`-` alone, the empty text,
+leading zeros, out of range) or consumes everything — `0` → Natural 0, `-0` → Real −0, a value that
+fits → Natural/Integer (`int_exact_*`), anything longer → the real path — always with
+`offset = e`. It never stops in the middle of the digits. -/
+theorem strToNum_digits_to_end (c : List Nat) (o e : Nat) (neg : Bool) (ds : List Nat) (he : e < 2 ^ 32)
+    (hds : AllDigits ds) (hu : unitsAt c e o ((if neg then [45] else []) ++ ds))
+    (hend : o + b2n neg + ds.length = e) :
+    ∃ r, strToNum c o e = some r ∧ (r.kind = .notANumber ∨ r.offset = e) := by
+  have hu' := (unitsAt_append c e (if neg then [45] else []) ds o).1 hu
+  have hlen : (if neg then [45] else ([] : List Nat)).length = b2n neg := by cases neg <;> simp [b2n]
+  rw [hlen] at hu'
+  cases ds with
+  | nil =>
+    -- only the sign (or nothing at all)
+    cases neg with
+    | false =>
+      simp [b2n] at hend; subst hend
+      exact ⟨⟨.notANumber, 0, o⟩, by simp [strToNum], Or.inl rfl⟩
+    | true =>
+      simp only [if_true, b2n] at hu' hend
+      have h45 := hu'.1.1
+      have ho := rd_lt h45
+      refine ⟨⟨.notANumber, 0, o + 1⟩, ?_, Or.inl rfl⟩
+      unfold strToNum
+      simp only [ho, if_true, h45]
+      unfold afterSign
+      simp [show ¬ (o + 1 < e) by simp at hend; omega]
+  | cons d1 xs =>
+    have hd1 : isDigit d1 = true := hds d1 (by simp)
+    have hf : d1 ≠ 45 ∧ d1 ≠ 43 := by simp [isDigit] at hd1; omega
+    have hs : (if neg then [45] else ([] : List Nat)) = [] ∨ (if neg then [45] else ([] : List Nat)) = [43] ∨
+        (if neg then [45] else ([] : List Nat)) = [45] := by cases neg <;> simp
+    have hu1 : unitsAt c e o ((if neg then [45] else []) ++ [d1]) :=
+      (unitsAt_append c e _ [d1] o).2 ⟨hu'.1, by rw [hlen]; exact hu'.2.1, trivial⟩
+    have hdec : decide ((if neg then [45] else ([] : List Nat)) = [45]) = neg := by cases neg <;> simp
+    rw [strToNum_after_sign c o e _ d1 hs hu1 hf, hlen, hdec]
+    have h0 : rd c e (o + b2n neg) = some d1 := hu'.2.1
+    simp only [List.length_cons] at hend
+    by_cases hnz : isNonZeroDigit d1 = true
+    · have hdig : digitsOn c e (o + b2n neg + 1) e := by
+        have := digitsOn_of_unitsAt c e xs (o + b2n neg + 1) (fun y hy => hds y (by simp [hy])) hu'.2.2
+        rw [show o + b2n neg + 1 + xs.length = e by omega] at this; exact this
+      obtain ⟨r, h1, h2⟩ := afterSign_digits_to_end c e neg (o + b2n neg) d1 he h0 hnz hdig
+      exact ⟨r, h1, Or.inr h2⟩
+    · have h48 : d1 = 48 := by simp [isDigit] at hd1; simp [isNonZeroDigit] at hnz; omega
+      subst h48
+      cases xs with
+      | nil =>
+        simp at hend
+        have := afterSign_zero c e neg (o + b2n neg) he h0 (Or.inl (by omega))
+        rw [this]
+        cases neg
+        · exact ⟨_, rfl, Or.inr (by simp; omega)⟩
+        · exact ⟨_, rfl, Or.inr (by simp; omega)⟩
+      | cons d2 ys =>
+        have hd2 : isDigit d2 = true := hds d2 (by simp)
+        rw [afterSign_leadingZero c e neg (o + b2n neg) d2 h0 hu'.2.2.1 hd2]
+        exact ⟨_, rfl, Or.inl rfl⟩
+
+/-- lone `-`, `-0`, `0`, a 25-digit run: rejected resp. consumed to the end -/
+example : strToNum [45] 0 1 = some ⟨.notANumber, 0, 1⟩ := by decide
+example : strToNum [45, 48] 0 2 = some ⟨.real, 2 ^ 63, 2⟩ := by decide
+example : (strToNum [49,50,51,52,53,54,55,56,57,48,49,50,51,52,53,54,55,56,57,48,49,50,51,52,53] 0 25).map (·.offset) = some 25 := by decide
 
 end Qentem.Props.C09
